@@ -471,3 +471,34 @@ where
         Err(_) => json!({"ok": false}),
     })
 }
+
+/// Raw combinators used directly from the runtime crate (C19): parse and check path with a fresh stack / tracker.
+pub fn observe_raw<'i, R: RuleType, T>(job: &'i Job, count: impl Fn(&T) -> i64) -> Value
+where
+    T: pest_typed::TypedNode<'i, R> + Debug,
+{
+    let s: &'i str = job.full.as_str();
+    let stk_json = |stack: &Stack<Span<'i>>| -> Vec<Value> {
+        stack[0..stack.len()].iter().map(|x| json!([x.start(), x.end()])).collect()
+    };
+    let parse = guard(|| {
+        let input = Position::from_start(s);
+        let mut stack = Stack::new();
+        let mut tracker = Tracker::<R>::new(input);
+        match T::try_parse_partial_with(input, &mut stack, &mut tracker) {
+            Some((rest, node)) => json!({"ok": true, "end": rest.byte_offset(), "n": count(&node), "stk": stk_json(&stack),
+                                        "dbgh": strhash(&format!("{:?}", node)), "bad": !s.is_char_boundary(rest.byte_offset())}),
+            None => json!({"ok": false}),
+        }
+    });
+    let check = guard(|| {
+        let input = Position::from_start(s);
+        let mut stack = Stack::new();
+        let mut tracker = Tracker::<R>::new(input);
+        match T::try_check_partial_with(input, &mut stack, &mut tracker) {
+            Some(rest) => json!({"ok": true, "end": rest.byte_offset(), "stk": stk_json(&stack)}),
+            None => json!({"ok": false}),
+        }
+    });
+    json!({"parse": parse, "check": check})
+}
